@@ -62,6 +62,12 @@ enum Consumer {
     All,
     Any,
     For,
+    /// `for` whose body has no effect (empty, a constant), skips (`continue`) or stops (`break`):
+    /// the elements are pulled all the same, resp. exactly one is
+    ForEmptyBody,
+    ForConstantBody,
+    ForContinue,
+    ForBreak,
     Manual,
 }
 
@@ -270,6 +276,14 @@ fn reference(source: &Source, stages: &[Stage], consumer: Consumer, pulls: usize
             }
             list(&out)
         }
+        Consumer::ForEmptyBody | Consumer::ForConstantBody | Consumer::ForContinue => {
+            while it.pull(&mut log).is_some() {}
+            "()".to_string()
+        }
+        Consumer::ForBreak => {
+            let _ = it.pull(&mut log);
+            "()".to_string()
+        }
         Consumer::Manual => {
             // k pulls; the value after exhaustion is not compared (left to C01)
             let mut out = Vec::new();
@@ -335,6 +349,10 @@ fn program(source: &Source, stages: &[Stage], consumer: Consumer, pulls: usize, 
         Consumer::All => format!("r := {it} $&&;"),
         Consumer::Any => format!("r := {it} $||;"),
         Consumer::For => format!("acc := mut [any] []; for x in {it} {{ acc += [x] }}; r := *acc;"),
+        Consumer::ForEmptyBody => format!("for x in {it} {{ }}; r := ();"),
+        Consumer::ForConstantBody => format!("for x in {it} {{ 1; \"two\" }}; r := ();"),
+        Consumer::ForContinue => format!("for x in {it} {{ continue }}; r := ();"),
+        Consumer::ForBreak => format!("for x in {it} {{ break }}; r := ();"),
         Consumer::Manual => {
             let calls: Vec<String> = (0..pulls).map(|_| format!("{it}()")).collect();
             if pulls == 1 {
@@ -428,7 +446,7 @@ fn jobs(thorough: bool) -> Vec<Job> {
     }
     let int_consumers = [
         Consumer::Collect, Consumer::PartitionGt1, Consumer::ReduceG, Consumer::Sum, Consumer::Product, Consumer::BitAnd,
-        Consumer::BitOr, Consumer::For, Consumer::Manual,
+        Consumer::BitOr, Consumer::For, Consumer::ForEmptyBody, Consumer::ForConstantBody, Consumer::ForContinue, Consumer::ForBreak, Consumer::Manual,
     ];
     for s in &sources {
         let n = match s {
@@ -474,7 +492,7 @@ fn jobs(thorough: bool) -> Vec<Job> {
                 for f in follow {
                     let mut st = vec![tf];
                     st.extend(f);
-                    for c in [Consumer::Collect, Consumer::For, Consumer::Manual] {
+                    for c in [Consumer::Collect, Consumer::For, Consumer::ForEmptyBody, Consumer::ForBreak, Consumer::Manual] {
                         out.push(Job { source: s.clone(), stages: st.clone(), consumer: c, pulls: len + 2, twice: false });
                     }
                     if tf == Stage::TypeInt {
